@@ -604,7 +604,8 @@ class Function(ClassOrFunc):
                 else:
                     yield from scan(nested_children)
 
-        return scan(self.children)
+        # The own defaults and annotations belong to the parent scope.
+        return scan(self.children[-1:])
 
     def iter_return_stmts(self):
         """
